@@ -90,6 +90,13 @@ static void handle(int argc, char **argv) {
         verif_arm(0, atol(argv[pos]));
         ARM(); rc = cif_value_clone(v, &w); DISARM();
         summary(rc);
+        /* "shares no storage … modifying either leaves the other intact": grow the clone and the original when they are lists */
+        if (rc == CIF_OK && w && cif_value_kind(w) == CIF_LIST_KIND) {
+            cif_value_tp *filler = NULL; int i;
+            cif_value_create(CIF_UNK_KIND, &filler);
+            for (i = 0; i < 6; i++) { cif_value_insert_element_at(w, 0, filler); cif_value_insert_element_at(v, 0, filler); }
+            cif_value_free(filler);
+        }
         cif_value_free(w); cif_value_free(v);
     } else if (argc >= 5 && !strcmp(argv[1], "insert")) {
         cif_value_tp *lst = NULL, *e, *filler = NULL;
@@ -104,6 +111,17 @@ static void handle(int argc, char **argv) {
         verif_arm(0, atol(argv[pos]));
         ARM(); rc = cif_value_insert_element_at(lst, 1, e); DISARM();
         summary(rc);
+        /* "objects owned by the caller stay valid": keep using the list after the call, whatever its outcome — six more
+           insertions with memory available, a read of every element, then release (all under ASan) */
+        {
+            size_t n = 0, j;
+            int rc2 = CIF_OK;
+            for (i = 0; i < 6 && rc2 == CIF_OK; i++) rc2 = cif_value_insert_element_at(lst, 0, filler);
+            if (rc2 != CIF_OK) OUT(" later-insert=%d", rc2);
+            if (cif_value_get_element_count(lst, &n) == CIF_OK)
+                for (j = 0; j < n; j++) { cif_value_tp *x = NULL; if (cif_value_get_element_at(lst, j, &x) != CIF_OK || !x) OUT(" unreadable@%zu", j); else (void) cif_value_kind(x); }
+            if (n != (size_t) ((full ? 4 : 1) + (rc == CIF_OK ? 1 : 0) + 6)) OUT(" size=%zu", n);
+        }
         cif_value_free(filler); cif_value_free(e); cif_value_free(lst);
     } else if (argc == 4 && (!strcmp(argv[1], "names") || !strcmp(argv[1], "namesfixed"))) {
         /* cif_loop_get_names on a stored loop with n item names _a0 … (SQLite's own allocations are not wrapped here) */
